@@ -55,11 +55,11 @@ def pipeline(ctx: Ctx, prefixes, nontrivial=lambda c: True):
     from ..drivers import base
     qs, qtotal = base.exhaustive_quanti(ctx.tier, ctx.seed)
     ls, ltotal = base.exhaustive_quali(ctx.tier, ctx.seed)
-    rl = base.runlength_quanti(ctx.tier, ctx.seed, 600 if ctx.tier == 'quick' else 30000)
+    rl = base.runlength_quanti(ctx.tier, ctx.seed, 600 if ctx.tier == 'quick' else 6000)
     items = [(f'exq{i}', s) for i, s in enumerate(qs)] + [(f'exl{i}', s) for i, s in enumerate(ls)] + \
             [(f'rl{i}', s) for i, s in enumerate(rl)]
     results = run_specs('spec', items)
-    nrand = 500 if ctx.tier == 'quick' else 20000
+    nrand = 500 if ctx.tier == 'quick' else 4000
     b = ctx.seed * 1_000_003
     results += run_specs('random', [(f'rnd{b + i}', b + i) for i in range(nrand)])
     flat, jr, skipped, outcomes = judge(results)
